@@ -113,10 +113,11 @@ PROPS = {
             {"lane": "addr", "quick": 3000, "thorough": 50000},
             {"lane": "unpack", "quick": 1500, "thorough": 30000},
             {"lane": "bundle", "quick": 1500, "thorough": 30000},
+            {"lane": "pack", "quick": 1200, "thorough": 20000},
         ],
         "trusted_base": [STDLIB, FSMODEL, "stack exhaustion and blocking system calls are runtime events the model cannot exhibit: the model shows the divergence (fuel) or the open of a non-regular file, the watched-subprocess lane shows the crash or hang (partial)"],
-        "assumptions": ["open findings F25 (link cycle outside the tree, dereferencing), F26 (dereferenced directory containing itself), F27 (dereferenced link to a fifo) are reported as KNOWN-FINDING"],
-        "explanation": "C19_split_idem (the 'post-split registry address still has subdir' panic is unreachable), C19_normalize_valid / C19_joinSubPath_valid / C19_finalSourceSub_valid (sub-paths stored in addresses are always valid, so the panicking SourceAddr is never reached with an invalid one), C12/C15 loop theorems give termination of Unpack (one step per entry), C14_terminates for the builder; parsing of rule files is total in the model (readRules has no partial operation after the F7 repair). Tie: all lanes report panics/timeouts; the 'robust' lane runs each hostile case (link cycles, fifos, mutated tar streams with repaired checksums, mutated manifests, mutated address strings) in a watched worker process.",
+        "assumptions": ["C19_pack_terminates assumes PackNamesOK (every component of every path in the tree is a proper file name: non-empty, no slash, not '.' or '..' — what a real directory can contain; C19_cex_terminates_needs_names shows the model needs it) and an absolute start path; findings F25 (link cycle outside the tree), F26 (dereferenced directory containing itself) and F27 (dereferenced link to a fifo) are repaired in /repo and listed as fixed"],
+        "explanation": "C19_split_idem (the 'post-split registry address still has subdir' panic is unreachable), C19_normalize_valid / C19_joinSubPath_valid / C19_finalSourceSub_valid (sub-paths stored in addresses are always valid, so the panicking SourceAddr is never reached with an invalid one), C12/C15 loop theorems give termination of Unpack (one step per entry), C14_terminates for the builder; Props/C19p: C19_pack_terminates (the Pack walk, including nested walks into dereferenced directories, returns for every finite tree with well-formed names, any options and any visiting list, within an explicit fuel bound pkTermBound fs; measure: directories not yet on the visiting stack, then depth below the walk root), C19_pack_fuel_irrelevant, C19_pack_never_diverges, C19_visiting_grows, C19_pack_deref_cycle_is_error / C19_pack_deref_ancestor_cycle_is_error (cycles are errors) and C19_pack_deref_twice_is_ok (the visiting list is a stack, not a global visited set), C19_resolveExternalLink_never_diverges, C19_link_cycle_is_error, C19_deref_special_skipped; parsing of rule files is total in the model (readRules has no partial operation after the F7 repair). Tie: all lanes report panics/timeouts; the 'robust' lane runs each hostile case (link cycles, self-containing dereferenced directories, fifos, mutated tar streams with repaired checksums, mutated manifests, mutated address strings) in a watched worker process.",
     },
     "C08": {
         "lanes": [
